@@ -357,7 +357,7 @@ func execPlan(t *testing.T, impl propImpl, p *Plan) *Result {
 
 func kernelConfig(p *Plan) simrt.Config {
 	return simrt.Config{Seed: p.Seed, Tape: p.Tape, Replay: p.Replay, Sched: p.Sched, PCTDepth: p.PCTDepth,
-		StarveName: p.StarveName, StarveSteps: p.StarveSteps, MapPerm: p.MapPerm, PreemptUnlock: p.PreemptUnlock, ChanCapDiv: p.Cfg.Knobs["chanCapDiv"], Trace: *fTrace, Debug: *fDebug, MaxSteps: uint64(p.Cfg.Knobs["maxSteps"])}
+		StarveName: p.StarveName, StarveSteps: p.StarveSteps, MapPerm: p.MapPerm, PreemptUnlock: p.PreemptUnlock, ChanCapDiv: p.Cfg.Knobs["chanCapDiv"], RecvCost: time.Duration(p.Cfg.Knobs["recvCostUs"]) * time.Microsecond, Trace: *fTrace, Debug: *fDebug, MaxSteps: uint64(p.Cfg.Knobs["maxSteps"])}
 }
 
 func finish(w *World, p *Plan, r *Result) {
